@@ -9,6 +9,7 @@ Writes /verif/seeded/STRATEGY.json and prints a summary. /repo is not touched:
 each change is applied to a scratch worktree that is removed afterwards.
 """
 import glob, json, os, subprocess, sys, shutil, statistics
+V = os.path.dirname(os.path.dirname(os.path.abspath(__file__)))  # the framework directory this tool belongs to (/verif, or a snapshot of it)
 
 ENV = dict(os.environ, GOFLAGS="-mod=mod", GOPROXY="off", GOSUMDB="off", GOTOOLCHAIN="local")
 TIER_S = {"C04", "C05", "C09", "C10", "C17", "C18", "C19"}
@@ -25,8 +26,8 @@ def one(d, cap):
     try:
         if r.returncode != 0:
             return {"id": name, "property": pid, "skipped": "written against an older base; does not apply to HEAD"}
-        env = dict(ENV, VERIF_REPO_DIR=wt, VERIF_OUT_DIR=f"/tmp/strat-{name}.out")
-        r = subprocess.run(f"bin/verifsim strategy {pid} {cap}", shell=True, cwd="/verif", env=env, capture_output=True, text=True, timeout=900)
+        env = dict(ENV, VERIF_DIR=V, VERIF_REPO_DIR=wt, VERIF_OUT_DIR=f"/tmp/strat-{name}.out")
+        r = subprocess.run(f"bin/verifsim strategy {pid} {cap}", shell=True, cwd=V, env=env, capture_output=True, text=True, timeout=900)
         line = [l for l in r.stdout.splitlines() if l.startswith("{")]
         if not line:
             return {"id": name, "property": pid, "skipped": "tool failed: " + (r.stderr or r.stdout)[-200:]}
@@ -43,7 +44,7 @@ def main():
     cap = 200000
     if args and args[0].isdigit():
         cap = int(args[0]); args = args[1:]
-    dirs = sorted(d for d in glob.glob("/verif/seeded/*") if os.path.isdir(d) and os.path.exists(d + "/patch.diff"))
+    dirs = sorted(d for d in glob.glob(V + "/seeded/*") if os.path.isdir(d) and os.path.exists(d + "/patch.diff"))
     if args:
         dirs = [d for d in dirs if any(a in d for a in args)]
     results = []
@@ -72,11 +73,11 @@ def main():
         del s["runs"]
         print(k, s)
     old = {}
-    if args and os.path.exists("/verif/seeded/STRATEGY.json"):
-        old = {r["id"]: r for r in json.load(open("/verif/seeded/STRATEGY.json")).get("results", [])}
+    if args and os.path.exists(V + "/seeded/STRATEGY.json"):
+        old = {r["id"]: r for r in json.load(open(V + "/seeded/STRATEGY.json")).get("results", [])}
     for r in results:
         old[r["id"]] = r
     allres = sorted(old.values(), key=lambda r: r["id"]) if args else results
-    json.dump({"cap_runs": cap, "summary": summary if not args else None, "results": allres}, open("/verif/seeded/STRATEGY.json", "w"), indent=1)
+    json.dump({"cap_runs": cap, "summary": summary if not args else None, "results": allres}, open(V + "/seeded/STRATEGY.json", "w"), indent=1)
 
 main()
